@@ -410,3 +410,51 @@ func (bt) Name() string     { return "" }
 		}},
 	}}
 }
+
+// Twins: two sibling packages with byte-identical layout (same-length names), each declaring an
+// @immutable type with a @mutable field, a constructor list and a @testonly function at the same
+// offsets, and a consumer importing both. Anything keyed by a position that is only meaningful
+// inside one process (token.Pos carried in a serialised fact) collides here under go vet.
+func Twins() *prog.Program {
+	twin := func(name, typ string) prog.Pkg {
+		return prog.Pkg{Path: "ex.com/m/" + name, Files: []prog.File{{Name: "t.go", Src: `package ` + name + `
+
+// ` + typ + ` is immutable except for its cache.
+// @immutable
+// @constructor New
+type ` + typ + ` struct {
+	F int
+	// @mutable
+	Stats int
+	G int
+}
+
+func New() *` + typ + ` { return &` + typ + `{} }
+
+// Probe is test-only.
+// @testonly
+func Probe() int { return 0 }
+`}}}
+	}
+	return &prog.Program{Pkgs: []prog.Pkg{twin("alpha", "TA"), twin("omega", "TO"),
+		{Path: "ex.com/m/cons", Files: []prog.File{{Name: "c.go", Src: `package cons
+
+import (
+	"ex.com/m/alpha"
+	"ex.com/m/omega"
+)
+
+func use(a *alpha.TA, o *omega.TO) {
+	a.Stats = 1
+	o.Stats = 1
+	a.F = 1 // want IMM01
+	o.F = 1 // want IMM01
+	a.G++ // want IMM03
+	o.G++ // want IMM03
+	_ = alpha.TA{} // want CTOR01
+	_ = omega.TO{} // want CTOR01
+	alpha.Probe() // want TONL02
+	omega.Probe() // want TONL02
+}
+`}}}}}
+}
